@@ -4,6 +4,7 @@ import (
 	"bytes"
 	"fmt"
 	"regexp"
+	"strings"
 )
 
 type Matcher struct {
@@ -134,9 +135,18 @@ func (m *Matcher) MatchRegexAndExpand(key, template []byte) (string, bool) {
 // regexToPrefix inspects the regex and returns the longest static prefix part of the regex
 // all inputs for which the regex match, must have this prefix
 func regexToPrefix(regex string) []byte {
+	// with an alternation, what follows the '^' is only one of the options
+	if strings.Contains(regex, "|") {
+		return nil
+	}
 	substr := ""
 	for i := 0; i < len(regex); i++ {
 		ch := regex[i]
+		// a quantifier that allows zero repetitions makes the previous character optional
+		if (ch == '?' || ch == '*' || ch == '{') && len(substr) > 0 {
+			substr = substr[:len(substr)-1]
+			break
+		}
 		if i == 0 {
 			if ch == '^' {
 				continue // good we need this
